@@ -208,13 +208,13 @@ Proof.
   { destruct (destroy s1 o1 (had_cookie q)) as [[s2 r2] dck]. destruct r2 as [[]|e|e]; try discriminate.
     apply written_durable. eapply start_none_ack. exact HS. }
   (* the branches that draw nothing *)
-  assert (Hnodraw : forall isref, start_finish s1 q o1 isref [] = (s', Ok (Some o), cks) -> False).
+  assert (Hnodraw : forall isref, start_finish s1 q k o1 isref [] = (s', Ok (Some o), cks) -> False).
   { intros isref H. apply Hsup. rewrite <- Hsup1.
-    destruct (start_finish_load _ _ _ _ _ _ _ _ (proj1 HJ1) (Hn1 Hn) H) as (l & X & _).
+    destruct (start_finish_load _ _ _ _ _ _ _ _ _ (proj1 HJ1) (Hn1 Hn) H) as (l & X & _).
     unfold start_finish in H. destruct isref.
-    - destruct (follow (S (N.to_nat (supply s1))) s1 o1) as [s2 fr] eqn:EF.
-      destruct (follow_load _ _ _ _ _ (proj1 HJ1) (Hn1 Hn) EF) as (l2 & X2 & C2 & _).
-      destruct fr as [o'|e|e]; try discriminate. injection H as <- _ _.
+    - destruct (follow (S (N.to_nat (supply s1))) s1 o1 k) as [s2 fr] eqn:EF.
+      destruct (follow_load _ _ _ _ _ _ (proj1 HJ1) (Hn1 Hn) EF) as (l2 & X2 & C2 & _).
+      destruct fr as [[o' lk']|e|e]; try discriminate. injection H as <- _ _.
       change (supply (hupd s2 o' _)) with (supply (hupd s2 o' (bookkeep s2 q))).
       rewrite (x_supply _ _ _ (ext_hupd s2 o' (bookkeep s2 q))), (x_supply _ _ _ X2).
       rewrite (count_draws_none l2); [change (count_draws []) with 0%N; lia|]. eapply Forall_impl; [|exact C2]. intros e He. apply He.
